@@ -514,9 +514,15 @@ def init_adt(st, ty, key, facts):
     cap = facts.const_int("bigint::BIGINT_LIMBS")
     if name.endswith("stackvec::StackVec"):
         stackvec_inv(st, key, cap)
+    elif name.endswith("heapvec::HeapVec"):
+        from .modular import heap_inv
+        heap_inv(st, key + (("f", 0),))
     elif name.endswith("bigint::Bigint"):
         if "alloc" not in facts.config:
             stackvec_inv(st, key + (("f", 0),), cap)
+        else:
+            from .modular import heap_inv
+            heap_inv(st, key + (("f", 0), ("f", 0)))
 
 
 def analyze_fn(facts, inst, model, overrides=None, ctx=None, pre=None, keep_paths=False):
